@@ -84,6 +84,23 @@ var P *PathState
 var KnownFindings []KnownFinding
 var S *solver.Session
 
+// SP: precise session used to confirm results obtained under arithmetic abstraction (nil when S is precise).
+var SP *solver.Session
+
+// confirmSat re-decides PC ∧ extra with precise arithmetic. Returns the precise verdict (and model).
+func confirmSat(extra *term.Term, syms []*term.Term) (solver.Result, map[string]string) {
+	if SP == nil {
+		return S.Check(extra, syms)
+	}
+	SP.BeginPath()
+	for _, c := range P.PC {
+		SP.Assert(c)
+	}
+	r, m := SP.Check(extra, syms)
+	SP.EndPath()
+	return r, m
+}
+
 // Config (process-wide)
 var Cfg = struct {
 	MaxSteps   int
@@ -191,6 +208,31 @@ func Branch(c *term.Term) bool {
 		addPC(term.Not(c))
 	}
 	return d
+}
+
+// branchFresh forks on a condition known to be independent of the path condition (a fresh
+// unconstrained input): both sides are feasible by construction, so no solver query is issued.
+func branchFresh(c *term.Term) bool {
+	if P.Pos < len(P.Prefix) {
+		d := P.Prefix[P.Pos]
+		if d.K != 'b' {
+			panic(engineAbort{"diverged", "expected branch decision"})
+		}
+		P.Pos++
+		if d.T {
+			addPC(c)
+		} else {
+			addPC(term.Not(c))
+		}
+		return d.T
+	}
+	alt := append(append([]Decision{}, P.Prefix...), Decision{K: 'b', T: false})
+	P.NewWork = append(P.NewWork, alt)
+	P.Branches++
+	P.Prefix = append(P.Prefix, Decision{K: 'b', T: true})
+	P.Pos++
+	addPC(c)
+	return true
 }
 
 // decide turns a bool-ish value into a concrete bool, branching if symbolic.
